@@ -223,7 +223,35 @@ def c02_need(o):
     return [f"rp:{o['o']['rp']['v']}:{o['o']['rp'].get('err', '-')}", f"find:{o['o']['find']}", f"at:{o['o']['at']['v']}", f"hint:{o['o']['hint']['v']}"]
 
 
+def c14a_sig(o):
+    a = o["c"]["a"]
+    return f"iss={a['iss']}:sub={a['sub']}:by={a['by']}:kid={a['kid']}:alg={a['alg']}:aud={a['aud']}:subject={o['c']['cfg']['subject']}:probe={o['c']['probe']}"
+
+
+def c14a_need(o):
+    return [f"{k}:{v['v']}" for k, v in o["o"].items()]
+
+
+def c14r_sig(o):
+    c = o["c"]
+    return f"iss={c['iss']}:cid={c['cid']}:by={c['by']}:kid={c['kid']}:alg={c['alg']}:aud={c['aud']}:rtype={c['rtype']}:edit={c['edit']}"
+
+
+def c14r_need(o):
+    return [f"{r}:{o['o'][r]['class']}:{o['o'][r]['src']}" for r in ("P", "L")]
+
+
 CHECKS = {
+    "C14": simple_table_check(
+        [dict(module="Assertion", sub="tbl-assertion", prefixes=("C14.",), sig=c14a_sig, need=c14a_need, label="JWT assertion table",
+              required=["verify:accept", "verify:reject", "bearerP:accept", "bearerL:accept", "codeP:accept", "codeL:accept", "codeP:reject", "codeL:reject"]),
+         dict(module="RequestObject", sub="tbl-reqobj", prefixes=("C14.",), sig=c14r_sig, need=c14r_need, label="request object table",
+              required=["P:login:obj", "L:login:obj", "P:refused:none", "L:refused:none"])],
+        ["storage holds keys per client (A: RSA, EC, Ed25519; B: EC; one key for nobody); assertions / request objects are built and signed byte by byte by the harness",
+         "HTTP entries use a provider whose JWTProfileVerifier takes the case's subject check (op.SubjectCheck), max age 1 h, offset 1 s, on both routers",
+         "identity probe: an authorization code of the `probe` client is redeemed with the assertion as client authentication",
+         "interoperability of the client helpers (client.SignedJWTProfileAssertion etc.) is exercised by the repository's integration tests and by C05/C06 histories (JWTBearer with own key), not by this table",
+         "case domain: <= 2 (quick) / <= 3 (thorough) deviations from three fitting assertions / two fitting request objects"]),
     "C02": simple_table_check(
         [dict(module="Signature", sub="tbl-signature", prefixes=("C02.",), sig=c02_sig, need=c02_need, label="signature / key-selection table",
               required=["rp:accept:-", "rp:reject:signature", "rp:reject:alg", "rp:reject:parse", "rp:reject:multiple", "rp:reject:payload",
